@@ -338,6 +338,60 @@ class Fragment:
     def _toks(self):
         return code_tokens(self.orig)
 
+    def question_let_to_match(self, conv="e_.into()"):
+        """R13: `let PAT = EXPR?;`  =>  `let PAT = match EXPR { Ok(v_) => v_, Err(e_) => return Err(<conv>) };` -- the documented desugaring of `?`
+        on a Result (Try::branch + From::from), spelled out so that the conversion of the error value is a visible call with a contract.
+        Returns the number of statements rewritten."""
+        toks = self._toks()
+        n = 0
+        for ix, (k, s, e) in enumerate(toks):
+            if k != "punct" or self.orig[s:e] != "?":
+                continue
+            if ix + 1 >= len(toks) or self.orig[toks[ix + 1][1]:toks[ix + 1][2]] != ";":
+                continue
+            # walk back to the start of the statement (depth 0 relative to the `?`)
+            j, depth = ix - 1, 0
+            start = None
+            while j >= 0:
+                kk, ss, ee = toks[j]
+                ch = self.orig[ss:ee]
+                if kk == "punct" and ch == "}" and depth == 0:
+                    start = j + 1      # a block statement ends here
+                    break
+                if kk == "punct" and ch in ")]}":
+                    depth += 1
+                elif kk == "punct" and ch in "([{":
+                    if depth == 0:
+                        start = j + 1
+                        break
+                    depth -= 1
+                elif kk == "punct" and ch == ";" and depth == 0:
+                    start = j + 1
+                    break
+                j -= 1
+            if start is None or self.orig[toks[start][1]:toks[start][2]] != "let":
+                continue
+            # the first depth-0 `=` of the statement
+            j, depth, eq = start, 0, None
+            while j < ix:
+                kk, ss, ee = toks[j]
+                ch = self.orig[ss:ee]
+                if kk == "punct" and ch in "([{":
+                    depth += 1
+                elif kk == "punct" and ch in ")]}":
+                    depth -= 1
+                elif kk == "punct" and ch == "=" and depth == 0 and self.orig[toks[j + 1][1]:toks[j + 1][2]] != "=":
+                    eq = j
+                    break
+                j += 1
+            if eq is None:
+                continue
+            self.insert_at(toks[eq][2], " match", prio=-5)
+            self.replace_span(s, e, " { Ok(v_) => v_, Err(e_) => return Err(%s) }" % conv, "R13",
+                              "`?` spelled out as its documented desugaring (match on the Result, error converted with From/Into, early return)")
+            n += 1
+        return n
+
     def plain_closures(self):
         """Offsets (in the original text) of closure heads that no rewrite covers. Verus accepts a closure without `ensures` and then knows
         nothing about its result, so an obligation that fails next to a closure the unit description does not know is undecided, not refuted."""
